@@ -16,7 +16,7 @@ META = {
     "rule": ("case = {type descriptor | program AST, registry spec}; distinct by JSON; non-trivial when the expression / "
              "HUGR holds >= 2 opaque occurrences at different depths and the registry resolves a non-empty subset"),
     "required": ["monitor:type-resolve", "monitor:hugr-resolve", "monitor:wire-invariance", "monitor:model-invariance",
-                 "monitor:idempotence", "feature:partial-registry", "feature:empty-registry",
+                 "monitor:idempotence", "monitor:model-compared", "monitor:hugr-model-compared", "feature:partial-registry", "feature:empty-registry",
                  "feature:missing-def", "feature:opaque-inside-opaque-args", "feature:resolved-op",
                  "feature:unresolved-op", "feature:polyfunc", "feature:perturbed-runtime-reqs"],
     "reach": ["hugr.tys:Opaque.resolve", "hugr.ops:Custom.resolve", "hugr.hugr.base:Hugr.resolve_extensions",
@@ -222,6 +222,7 @@ def check_type_case(ctx, case, stratum="type"):
         bad("type-bound-changed", "type_bound", x.type_bound().value, y.type_bound().value)
     ctx.count("monitor:model-invariance")
     m0, m1 = _model(x), _model(y)
+    ctx.count("monitor:model-compared" if not m0.startswith("raises ") else "model-export-raised:" + m0[7:] + ":" + type(x).__name__)
     if m0 != m1:
         bad("type-model-changed", "to_model", m0 if isinstance(m0, str) else "model A", m1 if isinstance(m1, str) else "model B")
     ctx.count("monitor:idempotence")
@@ -356,6 +357,7 @@ def check_hugr_case(ctx, case, stratum="hugr"):
         bad("hugr-wire-changed", p[0], p[1], p[2])
     ctx.count("monitor:model-invariance")
     m1 = _hugr_model(h)
+    ctx.count("monitor:hugr-model-compared" if not m0.startswith("raises ") else "hugr-model-export-raised")
     if m0 != m1:
         bad("hugr-model-changed", "to_model()", m0[:200] if isinstance(m0, str) else "model", m1[:200])
     ctx.count("monitor:idempotence")
